@@ -59,7 +59,9 @@ def run(ctx):
     hist = collections.Counter()
     distinct = set()
     reqs = []
-    for t in texts:
+    for n_, t in enumerate(texts):
+        if n_ % 3000 == 1000:
+            PF.earlier_failures(rng, hist)       # failed parses in between: a refused text must leave nothing behind
         v, cls = PF.direct_total(t)
         hist[cls] += 1
         violations.extend(v)
